@@ -197,6 +197,9 @@ func (vc *VC) sortOf(t types.Type) string {
 		if _, ok := u.Underlying().(*types.Interface); ok {
 			return SIface
 		}
+		if isOpaqueStruct(u) {
+			return SInt
+		}
 		return vc.sortOf(u.Underlying())
 	case *types.Basic:
 		switch {
@@ -236,7 +239,23 @@ func (vc *VC) sortOf(t types.Type) string {
 
 func isStructValue(t types.Type) bool {
 	s, ok := t.Underlying().(*types.Struct)
-	return ok && s.NumFields() > 0
+	if !ok || s.NumFields() == 0 {
+		return false
+	}
+	return !isOpaqueStruct(t)
+}
+
+// isOpaqueStruct: a struct type declared outside the repository (embed.FS, time.Time, list.List ...).
+// Its values are opaque handles: kvc never looks inside them.
+func isOpaqueStruct(t types.Type) bool {
+	n, ok := types.Unalias(t).(*types.Named)
+	if !ok {
+		return false
+	}
+	if _, isStruct := n.Underlying().(*types.Struct); !isStruct {
+		return false
+	}
+	return n.Obj().Pkg() != nil && !strings.HasPrefix(n.Obj().Pkg().Path(), "github.com/mazrean/kessoku")
 }
 
 func (vc *VC) zero(t types.Type) Term { return vc.zeroSort(vc.sortOf(t)) }
